@@ -46,6 +46,23 @@ def make_universe(kind, mode, root, off, feats, via=None):
     mode "db" : a BasicAnnotationDb holding absolute coordinates (span + offset), attached to the sequence
     """
     seq = make_seq(kind, root, "s", off)
+    if mode in ("db-order", "add-order"):
+        # the spans are supplied in the order via["given"] says (any order; each span's ends in either order)
+        refused = []
+        if mode == "db-order":
+            from cogent3.core.annotation_db import BasicAnnotationDb
+
+            db = BasicAnnotationDb()
+            for f, q in zip(feats, via["given"]):
+                db.add_feature(seqid="s", biotype=f["bio"], name=f["name"], spans=[tuple(sp) for sp in q], strand=f["strand"])
+            seq.annotation_db = db
+        else:
+            for f, q in zip(feats, via["given"]):
+                try:
+                    seq.add_feature(biotype=f["bio"], name=f["name"], spans=[tuple(sp) for sp in q], strand=f["strand"])
+                except Exception as ex:  # a refused call: nothing may have been recorded
+                    refused.append((f["name"], repr(ex)))
+        return seq, refused
     if mode == "add-slice":
         v = seq[via["lo"] : via["hi"]]
         created = []
